@@ -7,6 +7,8 @@ import (
 	"github.com/ipfs/go-cid"
 	cidlink "github.com/ipld/go-ipld-prime/linking/cid"
 	"github.com/ipni/go-libipni/ingest/schema"
+	"github.com/libp2p/go-libp2p/core/peer"
+	"github.com/multiformats/go-multibase"
 	"github.com/multiformats/go-multihash"
 	"pgregory.net/rapid"
 
@@ -35,6 +37,21 @@ type Ad struct {
 	Override  bool
 	EPs       []EP
 	Signature []byte // arbitrary signature bytes (C13 only; C05 signs)
+	IDForm    int    // text form of every peer ID in the ad: 0 base58 multihash, 1 CIDv1 base32 ("bafz..."), 2 CIDv1 base36 ("k51...")
+}
+
+// IDString renders a peer ID in one of the text forms peer.Decode accepts.
+func IDString(id peer.ID, form int) string {
+	switch form {
+	case 1:
+		return peer.ToCid(id).String()
+	case 2:
+		s, err := peer.ToCid(id).StringOfBase(multibase.Base36)
+		if err == nil {
+			return s
+		}
+	}
+	return id.String()
 }
 
 var addrPool = []string{"/ip4/8.8.8.8/tcp/3003", "/ip6/2606:4700::1/tcp/443/https", "/dns4/provider.example.com/tcp/80/http", "/ip4/1.2.3.4/udp/4001/quic-v1", "/ip4/10.0.0.1/tcp/1", "", "not-a-multiaddr", "/ip4/8.8.8.8/tcp/3003/http/http-path/a%2Fb"}
@@ -70,6 +87,7 @@ func GenAd(signed bool) *rapid.Generator[Ad] {
 		a.Prev = gen.Cid().Draw(t, "prev").String()
 		a.Entries = gen.Cid().Draw(t, "entries").String()
 		a.Provider = gen.KeyIdx().Draw(t, "provider")
+		a.IDForm = rapid.SampledFrom([]int{0, 0, 0, 1, 2}).Draw(t, "idform")
 		a.Signer = a.Provider
 		if rapid.IntRange(0, 3).Draw(t, "publisher-signs") == 0 {
 			a.Signer = gen.KeyIdx().Draw(t, "signer")
@@ -133,7 +151,7 @@ func mustCid(s string) cid.Cid {
 func (a Ad) Build() *schema.Advertisement {
 	keys := gen.Keys()
 	ad := &schema.Advertisement{
-		Provider:  keys[a.Provider].ID.String(),
+		Provider:  IDString(keys[a.Provider].ID, a.IDForm),
 		Addresses: a.Addrs,
 		Metadata:  a.Metadata,
 		ContextID: a.ContextID,
@@ -151,7 +169,7 @@ func (a Ad) Build() *schema.Advertisement {
 	if a.HasEP {
 		ad.ExtendedProvider = &schema.ExtendedProvider{Override: a.Override}
 		for _, e := range a.EPs {
-			ad.ExtendedProvider.Providers = append(ad.ExtendedProvider.Providers, schema.Provider{ID: keys[e.IDKey].ID.String(), Addresses: e.Addrs, Metadata: e.Metadata})
+			ad.ExtendedProvider.Providers = append(ad.ExtendedProvider.Providers, schema.Provider{ID: IDString(keys[e.IDKey].ID, a.IDForm), Addresses: e.Addrs, Metadata: e.Metadata})
 		}
 	}
 	return ad
